@@ -23,7 +23,7 @@ from mc.report import Report
 LEVEL = "exploration"
 RULE = ("flow back-end {zuko MAF, flowjax MAF} x bounded transform {logit, probit, off} x affine {on, off} x dtype {float32, "
         "float64} x dims {1,2} x training set {centred, piled against the upper bound, narrow (sigma = 1e-2 width)} x stage "
-        "{trained, trained->saved->loaded} (+ Aspire-built default flow and Aspire.sample_flow); for each: quadrature of "
+        "{trained, trained->saved->loaded, trained twice on different data (refit), refit->saved->loaded} (+ Aspire-built default flow and Aspire.sample_flow); for each: quadrature of "
         "exp(log_prob) over the support = 1, every row of sample_and_log_prob(256) has log q == log_prob(x), draws inside the "
         "bounds. non-trivial = configuration with at least one data transform; distinct = distinct configuration")
 ASSUMPTIONS = [
@@ -146,11 +146,18 @@ def run_config(cfg):
             flow = a.flow
         else:
             flow, F = build_flow(backend, bounded, affine, dt, d, seed)
+            if stage in ("refit", "refit-loaded"):
+                # non-initial state: the same flow object was trained before on data of another location/spread
+                x0 = training("narrow" if data != "narrow" else "centred", d, rng)
+                if backend == "zuko":
+                    flow.fit(x0, n_epochs=1, batch_size=64)
+                else:
+                    flow.fit(x0, max_epochs=1, batch_size=64, show_progress=False)
             if backend == "zuko":
                 flow.fit(x, n_epochs=2, batch_size=64)
             else:
                 flow.fit(x, max_epochs=2, batch_size=64, show_progress=False)
-            if stage == "loaded":
+            if stage in ("loaded", "refit-loaded"):
                 tmp = tempfile.mkdtemp(prefix="c03_")
                 with h5py.File(os.path.join(tmp, "f.h5"), "w") as f:
                     flow.save(f, "flow")
@@ -265,6 +272,10 @@ def configs(tier, seed):
     for bounded in ("logit", "probit", "off"):
         for dt in ("float64", "float32"):
             out.append(("zuko", bounded, True, dt, 2, "centred", "aspire", 0))
+        for affine in (True, False):
+            out.append(("zuko", bounded, affine, "float64", 1, "centred", "refit", 0))
+            out.append(("zuko", bounded, affine, "float64", 1, "piled", "refit-loaded", 0))
+    out.append(("flowjax", "logit", True, "float64", 1, "centred", "refit", 0))
     if tier == "thorough":
         out.append(("flowjax", "logit", True, "float64", 1, "centred", "aspire", 0))
     return out
